@@ -40,6 +40,8 @@ type Monitor struct {
 	commits     map[uint64]map[int]common.Hash
 	proposedIDs map[uint64][]types.BlockID
 	maxRound    int
+	// VoteHook, if set, sees every vote a correct node emits (after the built-in checks).
+	VoteHook func(n *Node, v *types.Vote)
 }
 
 func NewMonitor(s *Sim) *Monitor {
@@ -49,6 +51,10 @@ func NewMonitor(s *Sim) *Monitor {
 
 func (m *Monitor) count(k string, n int64) { m.Counters[k] += n }
 func (m *Monitor) Fatal() bool             { return len(m.Violations) > 0 }
+
+// Violate lets a check add its own violations to the trace oracle's list.
+func (m *Monitor) Violate(key, detail string) { m.violate(key, "%s", detail) }
+
 func (m *Monitor) violate(key, format string, a ...interface{}) {
 	if len(m.Violations) < 10 {
 		m.Violations = append(m.Violations, Violation{key, fmt.Sprintf(format, a...)})
@@ -147,6 +153,9 @@ func (m *Monitor) OnEmit(n *Node, msg cs.ConsensusMessage) {
 }
 
 func (m *Monitor) onOwnVote(n *Node, v *types.Vote) {
+	if m.VoteHook != nil {
+		defer m.VoteHook(n, v)
+	}
 	m.count("votes_checked", 1)
 	if v.Round > m.maxRound {
 		m.maxRound = v.Round
